@@ -4,6 +4,7 @@ from __future__ import annotations
 import inspect
 
 import numpy as np
+import pandas as pd
 
 from vfw import core, plumbing as P
 
@@ -58,7 +59,7 @@ def wkind(tb, w):
     return f"{k}/{cov}/{onrow}"
 
 
-def direct(module, test, kwargs, tb, mask, sid, masked_input=False):
+def direct(module, test, kwargs, tb, mask, sid, masked_input=False, time_tz=None):
     """What the statement says the result is: the real function called on the window rows."""
     real = P.REAL.get((module, test))
     if real is None:
@@ -71,7 +72,7 @@ def direct(module, test, kwargs, tb, mask, sid, masked_input=False):
         data = np.ma.MaskedArray(data, mask=[(i % 3 == 1) for i in range(len(data))])
     avail = {"inp": data[mask]}
     if tb.with_time:
-        avail["tinp"] = tb.time[mask]
+        avail["tinp"] = tb.time[mask] if time_tz is None else pd.Series(P.aware_times(tb, time_tz))[mask]
     if tb.with_z:
         avail["zinp"] = tb.z[mask]
     if tb.with_pos:
@@ -129,7 +130,7 @@ def judge_run(ctx, fe, opts, tb, contexts, res, err, witness_base):
                     if any((mask & om).any() for om in others):
                         ctx.count("c05.qcconfig_overlap_not_judged")
                         continue
-                    exp = direct(module, test, kwargs, tb, mask, tb.streams[0])
+                    exp = direct(module, test, kwargs, tb, mask, tb.streams[0], masked_input=bool(opts.get("masked_input")))
                     got = res.get(module, {}).get(test) if hasattr(res, "get") else None
                     ctx.count("c05.results_judged")
                     if exp is None:
@@ -150,7 +151,8 @@ def judge_run(ctx, fe, opts, tb, contexts, res, err, witness_base):
             src_sid = sid if fe != "numpy-array" else tb.streams[0]
             for module, test, kwargs in tests:
                 ctx.count("c05.results_judged")
-                exp_flags = direct(module, test, kwargs, tb, mask, src_sid, masked_input=bool(opts.get("masked_input")))
+                exp_flags = direct(module, test, kwargs, tb, mask, src_sid, masked_input=bool(opts.get("masked_input")),
+                                   time_tz=opts.get("time_tz"))
                 exp_recv = expected_received(tb, mask, src_sid)
                 # 1. the ContextResult
                 cand = [i for i, r in enumerate(res) if i not in used and r.stream_id == sid and (
@@ -246,12 +248,14 @@ def fe_variants(ctx, tb, single_stream):
            ("pandas", {"index": "string"}), ("pandas", {"index": "datetime"}), ("pandas", {"index": "reversed"}),
            ("pandas", {"index": "duplicated"}), ("pandas", {"index": "constant"}),
            ("pandas", {"names": {"time": "when", "z": "depth", "lat": "y", "lon": "x"}}),
+           *([("pandas", {"time_tz": "America/New_York"}), ("pandas", {"time_tz": "Asia/Kolkata", "index": "shifted"})]
+             if tb.with_time and tb.time_unit == "ns" else []),
            ("numpy-dict", {}), ("numpy-dict", {"time_carrier": "epoch"}), ("numpy-dict", {"masked_input": True}),
            ("xarray-ds", {}), ("xarray-file", {}), ("netcdf-ds", {}), ("netcdf-file", {})]
     if tb.with_time:
         out.append(("xarray-ds", {"time_coord": False}))
     if single_stream:
-        out += [("numpy-array", {}), ("numpy-array", {"masked_input": True}), ("qcconfig", {})]
+        out += [("numpy-array", {}), ("numpy-array", {"masked_input": True}), ("qcconfig", {}), ("qcconfig", {"masked_input": True})]
     return out
 
 
@@ -259,6 +263,9 @@ def run_one(ctx, tb, contexts, fe, opts, scratch, tag) -> None:
     names = sorted({f"{m}.{t}" for c in contexts for tests in c["streams"].values() for m, t, _ in tests
                     if t != "vf_probe_test"})
     how = ctx.rng.choice(["timestamp", "datetime"])
+    if opts.get("time_tz"):
+        # a tz-aware time column is compared as instants: the bounds are tz-aware stamps, in any zone
+        how = "aware:" + ctx.rng.choice(["UTC", "Europe/Paris", opts["time_tz"]])
     cfgd = P.build_config(contexts, how)
     if len(contexts) >= 2 and fe != "qcconfig" and ctx.rng.random() < 0.3:
         # run -> Config.add(more contexts) -> run: the config that is finally run is the same
@@ -379,6 +386,20 @@ def run(ctx) -> None:
                     chosen.append(rng.choice(xs))  # every front end selects rows by value, in original order
             for fe, opts in chosen:
                 run_one(ctx, tb, contexts, fe, opts, scratch, "w2-unsorted" if unsorted else "w2")
+        # ---- a record longer than 2^16 rows with a position jump exactly across row 65535 -> 65536 (and 32767 -> 32768):
+        #      tests that look at the previous row are called once on all the window's rows, however many there are
+        if ctx.shard == ctx.nshards - 1:
+            n = 70001
+            tb = P.Table(n, streams=("v1",))
+            tb.lat = np.array([10.0 + 1e-5 * r + (1.0 if r >= 65536 else 0.0) + (0.5 if r >= 32768 else 0.0) for r in range(n)])
+            tb.lon = np.array([20.0 + 1e-5 * r for r in range(n)])
+            tb.data["v1"] = np.array([1000.0 + (r % 7) + (50.0 if r in (32768, 65536) else 0.0) for r in range(n)])
+            big = [("qartod", "location_test", {"range_max": 100.0}), ("qartod", "spike_test", {"suspect_threshold": 10, "fail_threshold": 40}),
+                   ("qartod", "gross_range_test", {"fail_span": [0, 1040]})]
+            for fe in ctx.pick(["numpy-dict"], ["numpy-dict", "pandas", "xarray-ds"]):
+                for w in ((None, None), (tb.secs[100], tb.secs[69900])):
+                    run_one(ctx, tb, [{"window": w, "streams": {"v1": big}}], fe, {}, scratch, "long-record")
+                    ctx.count("c05.long_record_runs")
         # ---- histories across runs: two data sets with the same length and the same first / last instant but different
         #      interior instants, run one after the other with the same window
         for _ in range(ctx.pick(25, 200)):
